@@ -1271,6 +1271,132 @@ func (rn *runner) expoHistory(desc string) {
 		map[string]any{"history": desc, "max_size": maxSize, "max_scale": maxScale, "float": float, "cycles": descC}, "expo-rescaling", nCycles >= 2)
 }
 
+// ---- many distinct attribute sets over an instrument's lifetime, no cardinality limit configured ----
+
+// largeCardinality: cycles of fresh attribute sets (value 1 each, some sets recorded again) on one
+// counter and one histogram, read by the delta and the cumulative reader; judged here, without
+// shipping thousands of points to Coq: no "otel.metric.overflow" set may appear (no limit is
+// configured), the cumulative view has exactly one point per distinct set seen so far, and each
+// set's cumulative value (histogram count) equals the sum of its deltas.
+func largeCardinality(w *vgen.Writer, r *vgen.Rand, desc string, nCycles, perCycle int) {
+	if os.Getenv("OTEL_GO_X_CARDINALITY_LIMIT") != "" {
+		return // a limit was configured on purpose: this scenario is about the unconfigured default
+	}
+	deltaR := sdk.NewManualReader(sdk.WithTemporalitySelector(allDelta))
+	cumR := sdk.NewManualReader(sdk.WithTemporalitySelector(allCum))
+	mp := sdk.NewMeterProvider(sdk.WithReader(deltaR), sdk.WithReader(cumR))
+	ctx := context.Background()
+	defer mp.Shutdown(ctx)
+	meter := mp.Meter("verif/c08/cardinality")
+	float := r.Bool()
+	var ic metric.Int64Counter
+	var fc metric.Float64Counter
+	var err error
+	if float {
+		fc, err = meter.Float64Counter("big")
+	} else {
+		ic, err = meter.Int64Counter("big")
+	}
+	ih, err2 := meter.Int64Histogram("bigh", metric.WithExplicitBucketBoundaries(0, 10))
+	if err != nil || err2 != nil {
+		w.Violation("instrument creation failed", desc)
+		return
+	}
+	bad := func(what string) { w.Violation("large cardinality: "+what, desc) }
+	sumDelta := map[int64]int64{}  // set id -> sum of the counter deltas reported so far
+	sumDeltaH := map[int64]int64{} // set id -> sum of the histogram delta counts
+	recorded := map[int64]int64{}
+	next := int64(0)
+	setOf := func(s attribute.Set) (int64, bool) {
+		if v, ok := s.Value("id"); ok && s.Len() == 1 {
+			return v.AsInt64(), true
+		}
+		return 0, false
+	}
+	for c := 0; c < nCycles; c++ {
+		for j := 0; j < perCycle; j++ {
+			id := next
+			next++
+			if r.Chance(1, 10) && id > 0 {
+				id = int64(r.Intn(int(id))) // an old set again
+			}
+			opt := metric.WithAttributes(attribute.Int64("id", id))
+			if float {
+				fc.Add(ctx, 1, opt)
+			} else {
+				ic.Add(ctx, 1, opt)
+			}
+			ih.Record(ctx, id%20, opt)
+			recorded[id]++
+		}
+		var rmD, rmC metricdata.ResourceMetrics
+		if e := deltaR.Collect(ctx, &rmD); e != nil {
+			bad("delta Collect: " + e.Error())
+		}
+		if e := cumR.Collect(ctx, &rmC); e != nil {
+			bad("cumulative Collect: " + e.Error())
+		}
+		read := func(rm *metricdata.ResourceMetrics) (cnt, hist map[int64]int64) {
+			cnt, hist = map[int64]int64{}, map[int64]int64{}
+			put := func(m map[int64]int64, set attribute.Set, v int64) {
+				id, ok := setOf(set)
+				if !ok {
+					bad(fmt.Sprintf("cycle %d: a point with attribute set %q although no cardinality limit is configured", c, set.Encoded(attribute.DefaultEncoder())))
+					return
+				}
+				if _, dup := m[id]; dup {
+					bad("attribute set reported twice")
+				}
+				m[id] = v
+			}
+			for _, sm := range rm.ScopeMetrics {
+				for _, m := range sm.Metrics {
+					switch d := m.Data.(type) {
+					case metricdata.Sum[int64]:
+						for _, p := range d.DataPoints {
+							put(cnt, p.Attributes, p.Value)
+						}
+					case metricdata.Sum[float64]:
+						for _, p := range d.DataPoints {
+							put(cnt, p.Attributes, int64(p.Value))
+						}
+					case metricdata.Histogram[int64]:
+						for _, p := range d.DataPoints {
+							put(hist, p.Attributes, int64(p.Count))
+						}
+					}
+				}
+			}
+			return
+		}
+		dC, dH := read(&rmD)
+		cC, cH := read(&rmC)
+		for id, v := range dC {
+			sumDelta[id] += v
+		}
+		for id, v := range dH {
+			sumDeltaH[id] += v
+		}
+		for name, pair := range map[string][2]map[int64]int64{"counter": {cC, sumDelta}, "histogram": {cH, sumDeltaH}} {
+			cum, run := pair[0], pair[1]
+			if len(cum) != len(recorded) {
+				bad(fmt.Sprintf("cycle %d: the cumulative %s has %d points for %d distinct attribute sets recorded so far", c, name, len(cum), len(recorded)))
+			}
+			n := 0
+			for id, want := range recorded {
+				if cum[id] != want || run[id] != want {
+					if n < 3 {
+						bad(fmt.Sprintf("cycle %d, %s, set id=%d: recorded %d, cumulative %d, sum of deltas %d", c, name, id, want, cum[id], run[id]))
+					}
+					n++
+				}
+			}
+		}
+	}
+	w.Tally(fmt.Sprintf("large-cardinality history: %d distinct sets", len(recorded)))
+	w.Extra["large_cardinality"] = map[string]any{"cycles": nCycles, "per_cycle": perCycle, "distinct_sets": len(recorded)}
+}
+
 func main() {
 	o := vgen.ParseFlags()
 	otel.SetLogger(logr.Discard())
@@ -1294,6 +1420,18 @@ func main() {
 				}
 			}()
 			rn.history(desc, nOps)
+		}()
+	}
+	nBig := o.Count(1, 4)
+	for i := 0; i < nBig; i++ {
+		desc := fmt.Sprintf("seed=%d large-cardinality=%d", o.Seed, i)
+		func() {
+			defer func() {
+				if e := recover(); e != nil {
+					w.Violation(fmt.Sprintf("panic: %v", e), desc)
+				}
+			}()
+			largeCardinality(w, r.Fork(), desc, 4, 700+100*i)
 		}()
 	}
 	nExpo := o.Count(120, 2000)
